@@ -33,15 +33,17 @@ def deref_self_field(e, fld):
     r = e[2]
     if r[0] != "paren": return False
     r = r[2]
-    return r[0] == "un" and r[2] == "*" and strip(r[3])[0] == "mcall" and strip(r[3])[3] == "as_ptr" \
-        and not strip(r[3])[4] and is_path(strip(strip(r[3])[2]), "self")
+    if not (r[0] == "un" and r[2] == "*" and strip(r[3])[0] == "mcall" and strip(r[3])[3] == "as_ptr" and not strip(r[3])[4]): return False
+    recv = strip(strip(r[3])[2])
+    # the bucket's pointer: self.as_ptr(), or (in UniqueBucketRef { bucket: BucketRef }) self.bucket.as_ptr()
+    return is_path(recv, "self") or (recv[0] == "field" and recv[3] == "bucket" and is_path(strip(recv[2]), "self"))
 
 
 def len_exclusive(e):
     """*( *addr_of_mut!(( *self.as_ptr()).len)).get_mut()"""
     e = strip(e)
     if not (e[0] == "un" and e[2] == "*"): return False
-    m = e[3]
+    m = strip(e[3])
     if not (m[0] == "mcall" and m[3] == "get_mut" and not m[4] and m[2][0] == "paren"): return False
     d = m[2][2]
     if not (d[0] == "un" and d[2] == "*" and d[3][0] == "macro" and d[3][2] == "addr_of_mut" and len(d[3][3]) == 1): return False
@@ -223,13 +225,13 @@ class AbFn(Fn):
         return [("cas", old, new, okb, x, errb, ln)]
 
 
-def check_layout(parser, abfns, path, known):
+def check_layout(parser, abfns, path, known, prep):
     """shape of AtomicBucket::layout and AtomicBucket::with_capacity; returns the text of `gen_ab_layout`"""
     def lost(e, what): raise Lost(e[1], what)
     f = check_sig(abfns, "AtomicBucket", "layout", ["NonZeroUsize"], "LassoResult<Layout>", path)
     par = f[4][0][0]
     fnl = AbFn("layout", known, set()); fnl.sc.bind(par, "nz", f[1])
-    body = parser.fn_body(f)
+    body = prep(f, "AtomicBucket")
     stmts = list(body[2]); header = []; names = []
     while stmts and stmts[0][0] == "let" and strip(stmts[0][4])[0] == "call" and strip(stmts[0][4])[2][0] == "path" \
             and len(strip(stmts[0][4])[2][2]) == 2 and strip(stmts[0][4])[2][2][0] == "Layout" \
@@ -279,10 +281,27 @@ def check_layout(parser, abfns, path, known):
         a1 = strip(a2[2]); ok = a1[0] == "mcall" and a1[3] == "and_then" and len(a1[4]) == 1 and clos(a1[4][0], "extend", names[2])
     if ok:
         x = strip(a1[2]); ok = x[0] == "mcall" and x[3] == "extend" and is_path(strip(x[2]), names[0]) and len(x[4]) == 1 and is_path(strip(x[4][0]), names[1])
+    if not ok:
+        # second accepted shape (after normalisation):  { let (h, _) = next.extend(len)?; let (h, _) = h.extend(cap)?;
+        #                                                let (b, _) = h.extend(data)?; Ok(b.pad_to_align()) }.map_err(|_| ..)
+        ok = t[0] == "mcall" and t[3] == "map_err" and len(t[4]) == 1 and t[4][0][0] == "closure" and t[4][0][2] == ["_"] and t[2][0] == "block"
+        if ok:
+            err = fnl.errkind(t[4][0][3]); blk = t[2]; cur = names[0]
+            ok = len(blk[2]) == 3 and blk[3] is not None
+            for st, arg in zip(blk[2] if ok else [], [names[1], names[2], dname]):
+                v = strip(st[4]) if st[0] == "let" else None
+                ok = ok and st[0] == "let" and st[2][0] == "ptuple" and len(st[2][2]) == 2 and st[2][2][0][0] == "pbind" \
+                    and v[0] == "try" and strip(v[2])[0] == "mcall" and strip(v[2])[3] == "extend" and is_path(strip(strip(v[2])[2]), cur) \
+                    and len(strip(v[2])[4]) == 1 and is_path(strip(strip(v[2])[4][0]), arg)
+                if ok: cur = st[2][2][0][2]
+            if ok:
+                r = strip(blk[3])
+                ok = r[0] == "call" and is_path(r[2], "Ok") and len(r[3]) == 1 and strip(r[3][0])[0] == "mcall" \
+                    and strip(r[3][0])[3] == "pad_to_align" and not strip(r[3][0])[4] and is_path(strip(strip(r[3][0])[2]), cur)
     if not ok: lost(t, "AtomicBucket::layout does not end with the extend / pad_to_align / map_err chain")
     # with_capacity: let layout = Self::layout(capacity)?; .. alloc(layout) ..; fields len := 0, capacity := capacity
     w = check_sig(abfns, "AtomicBucket", "with_capacity", ["NonZeroUsize"], "LassoResult<UniqueBucketRef>", path)
-    wp = w[4][0][0]; wb = parser.fn_body(w)
+    wp = w[4][0][0]; wb = prep(w, "AtomicBucket")
     s0 = wb[2][0] if wb[2] else None
     if not (s0 and s0[0] == "let" and strip(s0[4])[0] == "try" and strip(strip(s0[4])[2])[0] == "call"
             and names_of(strip(strip(s0[4])[2])[2]) in (["Self", "layout"], ["AtomicBucket", "layout"])
@@ -337,8 +356,19 @@ def run(repo, out):
             raise Lost(st[0][1] if st else 1, "struct AtomicBucket does not have exactly the fields %s" % AB_FIELDS)
         bref, uref = impl_fns(items, "BucketRef", path), impl_fns(items, "UniqueBucketRef", path)
 
+        import astx
+        inlined = set()
+        # interpreted by the lowering itself (accessors after a shape check, set_len by specification): not inlined
+        KEEP = {"as_ptr", "length", "capacity", "len", "set_len", "layout", "new"}
+
+        def prep(f, ty):
+            b, inl = astx.prepare(parser, items, f, ty, lambda t, n, node: n in KEEP or t is None,
+                                  adjacent_methods=("compare_exchange_weak", "compare_exchange"))
+            inlined.update(inl)
+            return b
+
         def body_of(fns, ty, name, params, ret):
-            return strip(parser.fn_body(check_sig(fns, ty, name, params, ret, path)))
+            return strip(prep(check_sig(fns, ty, name, params, ret, path), ty))
 
         ok_b, ok_u = set(), set()
         b = body_of(bref, "BucketRef", "length", ["&self"], "&AtomicUsize")
@@ -352,7 +382,7 @@ def run(repo, out):
         b = body_of(uref, "UniqueBucketRef", "len", ["&self"], "usize")
         if len_exclusive(b): ok_u.add("len")
 
-        parts = [check_layout(parser, impl_fns(items, "AtomicBucket", path), path, known)]
+        parts = [check_layout(parser, impl_fns(items, "AtomicBucket", path), path, known, prep)]
         for fns, ty, name, gen, params, ret, rk, kinds, ok in [
                 (bref, "BucketRef", "try_inc_length", "gen_ab_try_inc_length", ["&self", "usize"], "Result<usize,()>", "try", ["num"], ok_b),
                 (uref, "UniqueBucketRef", "set_len", "gen_ab_set_len", ["&mut self", "usize"], None, "unit", ["num"], ok_u),
@@ -363,7 +393,7 @@ def run(repo, out):
             for (p, _t), kd in zip([x for x in f[4] if x[0] != "self"], kinds):
                 fnl.sc.bind(p, kd, f[1])
                 if kd == "num": ps.append(p)
-            stl = fnl.stmts(parser.fn_body(f), True)
+            stl = fnl.stmts(prep(f, ty), True)
             if rk == "unit": stl.append(("s", "AReturn RUnit", f[7]))
             parts.append("(* %s:%d-%d  fn %s::%s *)\nDefinition %s : afundef := mkAFun [%s]\n  (%s).\n" % (
                 rel, f[1], f[7], ty, name, gen, "; ".join(q(p) for p in ps), app(stl, 2, rel)))
